@@ -53,6 +53,9 @@ var c16routes = []string{"name", "alias", "param", "computed", "apply", "map", "
 // evaluated in an earlier EvalString (so that the interpreter already holds it when the new one is compiled).
 var c16earlier string
 
+// enumeration switches read by c16program (set by the enumerator and by replay)
+var c16lazyRestName, c16quotedArgs bool
+
 func c16program(lazy []bool, use []string, variadic bool, route string, failAt int, extra int) []*T {
 	c16earlier = ""
 	zero := false
@@ -73,8 +76,13 @@ func c16program(lazy []bool, use []string, variadic bool, route string, failAt i
 		params = append(params, p)
 	}
 	if variadic {
-		params = append(params, "&", "r")
-		elems = append(elems, "r")
+		// c16lazyRestName: the tail is written like a lazy formal (& #r); it is still an ordinary, strict tail
+		rn := "r"
+		if c16lazyRestName {
+			rn = "#r"
+		}
+		params = append(params, "&", rn)
+		elems = append(elems, rn)
 	}
 	body := "(list " + strings.Join(elems, " ") + ")"
 	var args []string
@@ -84,6 +92,16 @@ func c16program(lazy []bool, use []string, variadic bool, route string, failAt i
 		} else {
 			if zero {
 				args = append(args, fmt.Sprintf("(t %d (- v 5))", i+1))
+			} else if c16quotedArgs {
+				// values that are not self-evaluating: forcing a wrapped *value* must not evaluate it again
+				switch i % 3 {
+				case 0:
+					args = append(args, fmt.Sprintf("(t %d (quote (t %d 0)))", i+1, 70+i))
+				case 1:
+					args = append(args, fmt.Sprintf("(t %d (quote v))", i+1))
+				default:
+					args = append(args, fmt.Sprintf("(t %d [(quote (t %d 0)) v])", i+1, 75+i))
+				}
 			} else {
 				args = append(args, fmt.Sprintf("(t %d (+ v %d))", i+1, i+1))
 			}
@@ -238,7 +256,7 @@ func init() {
 		ID:    "C16",
 		Level: "exploration",
 		Rule: "every signature of 1..3 parameters each strict or lazy, with and without a variadic tail x every assignment of a usage {none, force, force twice, substitute, closure forcing after return, force under a shadowing let} " +
-			"to the lazy parameters x 11 call routes {name, alias, parameter, computed callee, apply, map, tail self-call, non-tail recursion, strict twin called twice, and name / tail self-call after redefining a function whose lazy positions were the opposite} x {no failing argument, argument j fails} x 0..2 variadic extras; " +
+			"to the lazy parameters x 11 call routes {name, alias, parameter, computed callee, apply, map, tail self-call, non-tail recursion, strict twin called twice, and name / tail self-call after redefining a function whose lazy positions were the opposite} x {no failing argument, argument j fails} x {integer arguments, arguments whose values are lists / symbols / arrays} x 0..2 variadic extras x {tail named r, tail named #r}; " +
 			"arguments are traced host calls reading the caller's variable; value, error and trace compared with the reference evaluator (thunk + memo + caller's scope)",
 		Assumptions: []string{"R1 models lazy parameters as memoised thunks over the caller's scope; apply/map wrap evaluated values; the typed func declaration route is not generated"},
 		Run: func(c *engine.Ctx) {
@@ -246,34 +264,47 @@ func init() {
 				for _, route := range c16routes {
 					for failAt := -2; failAt < len(lazy); failAt++ {
 						for extra := 0; extra <= 2; extra++ {
-							if c.Expired() {
-								return
-							}
-							forms := c16program(lazy, use, variadic, route, failAt, extra)
-							if forms == nil {
-								continue
-							}
-							if !c.Mine() {
-								continue
-							}
-							key := route
-							for i, l := range lazy {
-								if l {
-									key += "," + use[i]
-								} else {
-									key += ",strict"
+							for _, mode := range [][2]bool{{false, false}, {true, false}, {false, true}} {
+								if c.Expired() {
+									return
 								}
-							}
-							if variadic {
-								key += ",&"
-							}
-							pre := c16prelude()
-							if c16earlier != "" {
-								pre = append(pre, Parse(c16earlier)...)
-							}
-							res := diffProgram(c, "C16", pre, forms, 0, progOpts{keyExtra: key})
-							if res.tr != nil {
-								res.tr.Env.Close()
+								if (mode[1] && !variadic) || (mode[0] && failAt == -2) {
+									continue
+								}
+								c16quotedArgs, c16lazyRestName = mode[0], mode[1]
+								forms := c16program(lazy, use, variadic, route, failAt, extra)
+								c16quotedArgs, c16lazyRestName = false, false
+								if forms == nil {
+									continue
+								}
+								if !c.Mine() {
+									continue
+								}
+								key := route
+								if mode[0] {
+									key += "/quoted-args"
+								}
+								if mode[1] {
+									key += "/#rest"
+								}
+								for i, l := range lazy {
+									if l {
+										key += "," + use[i]
+									} else {
+										key += ",strict"
+									}
+								}
+								if variadic {
+									key += ",&"
+								}
+								pre := c16prelude()
+								if c16earlier != "" {
+									pre = append(pre, Parse(c16earlier)...)
+								}
+								res := diffProgram(c, "C16", pre, forms, 0, progOpts{keyExtra: key})
+								if res.tr != nil {
+									res.tr.Env.Close()
+								}
 							}
 						}
 					}
